@@ -210,6 +210,11 @@ pair1_pipe_stop(void *arg)
 	pair1_pipe *p = arg;
 	pair1_sock *s = p->pair;
 
+	// Stop the aios first, so that no callback can run (and mark the
+	// socket readable or writable through this pipe) once we detach it.
+	nni_aio_stop(&p->aio_send);
+	nni_aio_stop(&p->aio_recv);
+
 	nni_mtx_lock(&s->mtx);
 	if (s->p == p) {
 		s->p = NULL;
@@ -227,8 +232,6 @@ pair1_pipe_stop(void *arg)
 		}
 	}
 	nni_mtx_unlock(&s->mtx);
-	nni_aio_stop(&p->aio_send);
-	nni_aio_stop(&p->aio_recv);
 }
 
 static void
